@@ -109,10 +109,13 @@ def _nf(t, sign, r):
         _nf(t[2], sign, r)
         _nf(t[3], sign if t[1].startswith("add") else -sign, r)
         return
-    if k == "vfield" and t[2] == "Ok" and t[1][0] == "call" and t[1][1] in _CHECKED:
+    if k == "vfield" and t[2] in ("Ok", "Some") and t[1][0] == "call" and len(t[1][2]) == 2 and \
+            (t[1][1] in _CHECKED or t[1][1].endswith(("::checked_add", "::checked_sub"))):
+        # the successful result of a checked add / sub (Uint128 -> Result, primitive integers -> Option) is the exact sum
         a, b = t[1][2]
+        sg = _CHECKED.get(t[1][1], 1 if t[1][1].endswith("checked_add") else -1)
         _nf(a, sign, r)
-        _nf(b, sign * _CHECKED[t[1][1]], r)
+        _nf(b, sign * sg, r)
         return
     if k == "unwrap_or" and (t[2][0] == "default" or t[2] == ("lit", 0)):
         r.add_atom(("orzero", t[1]), sign)
@@ -122,6 +125,20 @@ def _nf(t, sign, r):
     if k == "call" and any(w in t[1] for w in INEXACT_WORDS):
         r.inexact.append(t[1])
     r.add_atom(t, sign)
+
+
+def previous_or_zero(p, old):
+    """NF atom(s) for `previous value of an optional entry, or 0`: the payload when path p decided the entry present,
+    nothing when it decided it absent, the symbolic orzero(old) when it did not look"""
+    r = NF()
+    dec = [c[1] for c in p.conds if c[0] == old and c[1] in ("Some", "None")] if p is not None else []
+    if dec == ["Some"]:
+        r.add_atom(("vfield", old, "Some", "0"), 1)
+    elif dec == ["None"]:
+        pass
+    else:
+        r.add_atom(("orzero", old), 1)
+    return r
 
 
 def inexact_ops(t, acc=None):
@@ -385,6 +402,8 @@ def _resp_entries(path, r, depth):
             else:
                 out.append((h, m))
         return out
+    if r[0] == "update" and set(n for n, _ in r[2]) <= {"attributes", "events"}:
+        return _resp_entries(path, r[1], depth + 1)      # attributes / events pushed directly: the messages are the base's
     if r[0] == "loopvar":
         lk, var, k = r[1], r[2], r[3]
         ent = [e for e in path.effects if e.kind == "loop_enter" and e.name == lk]
@@ -483,6 +502,17 @@ def cell_delta(eff, field=None, path=None):
         lf = loaded_from(base)
         if base[0] == "oldval":
             lf = (base[1], base[2], base[3], "update")
+        if (lf is None or lf[0] != eff.item or lf[1] != eff.key) and v[0] == "struct" and field in dict(v[2]):
+            # the entry rebuilt field by field (`S { f: old.f - x, g: new }`): the field's previous value is the same field of
+            # the entry read from this very cell
+            n = nf(dict(v[2])[field])
+            prevs = [a for a in n.atoms if a[0] == "field" and a[2] == field and loaded_from(a[1]) is not None
+                     and loaded_from(a[1])[0] == eff.item and loaded_from(a[1])[1] == eff.key]
+            if len(prevs) == 1 and n.atoms[prevs[0]] == 1:
+                if loaded_from(prevs[0][1])[2] != eff.ver:
+                    return Delta(None, "read-modify-write with an intervening write to the same item", eff)
+                n.add_atom(prevs[0], -1)
+                return Delta(n, ("inexact operation %s" % n.inexact) if n.inexact else None, eff)
         if lf is None or lf[0] != eff.item or lf[1] != eff.key:
             return Delta(None, "value saved is not derived from the stored value of the same cell: %s" % show(v)[:200], eff)
         if lf[2] != eff.ver:
